@@ -49,7 +49,9 @@ def sample_xml(tns, attrs_variant, doc, k):
             return f"<{tag}>" + "".join(el(c) for c in o["kids"]) + f"</{tag}>"
         return f"<{tag}>{canon_text(o, counter['n'])}</{tag}>"
 
-    attrs = {1: "", 2: ' id="7"', 3: ' id="8" lang="en"' if k % 2 else ' id="9"'}[attrs_variant]
+    # variant 4: an ATTRIBUTE with the same local name as the first child element (two different members of the class)
+    same = f' {doc[0]["name"]}="7"' if doc else ""
+    attrs = {1: "", 2: ' id="7"', 3: ' id="8" lang="en"' if k % 2 else ' id="9"', 4: same}[attrs_variant]
     rtag = "t:Root" if q else "Root"
     return f"<{rtag}{decl}{attrs}>" + "".join(el(o) for o in doc) + f"</{rtag}>"
 
